@@ -5,12 +5,31 @@ import (
 	"flag"
 	"fmt"
 	"os"
+	"runtime/pprof"
 	"strconv"
+	"time"
 
 	"verif/engine/harness/e2"
 )
 
 func main() {
+	if pf := os.Getenv("SYMGEN_PPROF"); pf != "" {
+		// development aid: CPU profile of an -inprocess run, written after SYMGEN_PPROF_SECS seconds (default 120)
+		f, err := os.Create(pf)
+		if err == nil {
+			_ = pprof.StartCPUProfile(f)
+			secs, _ := strconv.Atoi(os.Getenv("SYMGEN_PPROF_SECS"))
+			if secs == 0 {
+				secs = 120
+			}
+			go func() {
+				time.Sleep(time.Duration(secs) * time.Second)
+				pprof.StopCPUProfile()
+				_ = f.Close()
+				os.Exit(7)
+			}()
+		}
+	}
 	prop := flag.String("property", "", "property id (C01..C20)")
 	tier := flag.String("tier", "quick", "quick|thorough")
 	solver := flag.String("solver", "z3-new", "z3|z3-new|cvc5")
